@@ -18,8 +18,12 @@ PID = 'C03'
 _RUN = {}
 
 
-def _gen(rng):
-    k = rng.random()
+QUOTA = [0.05, 0.15, 0.25, 0.29, 0.35, 0.44, 0.5, 0.58, 0.62, 0.7, 0.75, 0.82, 0.9, 0.95, 0.99, 0.84]
+
+
+def _gen(rng, i=None):
+    # a fixed schedule by case index (not a coin per case) so that every run contains every shape
+    k = rng.random() if i is None else QUOTA[i % len(QUOTA)]
     if k < 0.3:
         name, prog = 'tmpl:handover', gen.tmpl_handover(rng)
     elif k < 0.4:
@@ -36,9 +40,11 @@ def _gen(rng):
         name, prog = 'tmpl:label_table', gen.tmpl_label_table(rng)
     elif k < 0.86:
         name, prog = 'tmpl:self_return', gen.tmpl_self_return(rng)
+    elif k > 0.985:
+        name, prog = 'tiny', gen.gen_tiny(rng, True)
     else:
         name, prog = gen.gen_case(rng, allow_input=True)
-    if rng.random() < 0.35 and not name.startswith('tmpl:dispatch'):
+    if rng.random() < 0.35 and not name.startswith('tmpl:dispatch') and name != 'tiny':
         prog = gen.epilogue(rng, prog)
     return name, prog
 
@@ -47,7 +53,7 @@ def _case(i):
     tier, seed, rundir = _RUN['tier'], _RUN['seed'], _RUN['dir']
     rng = C.rng_for(seed, PID, tier, i)
     res = {'i': i, 'items': [], 'feat': [], 'status': 'ok', 'hist': {}}
-    name, prog = _gen(rng)
+    name, prog = _gen(rng, i)
     stdin = gen.gen_stdin(rng)
     res['src'] = name
     text = P.render_text(rng, prog)
